@@ -195,6 +195,12 @@ func LogbufMain(args []string) {
 			write(b, x)
 		}
 		total := pre + 5 + r.Intn(25)
+		// dense histories: a busy writer and followers that come and go all the time (the hand-over of the tail to
+		// a new follower has to be gap-free at every instant of a write)
+		dense := h%6 == 5
+		if dense {
+			total = pre + 250
+		}
 		var wg sync.WaitGroup
 		nobs := 1 + r.Intn(3)
 		seeds := make([]int64, nobs)
@@ -206,7 +212,7 @@ func LogbufMain(args []string) {
 			defer wg.Done()
 			for x := pre + 1; x <= total; x++ {
 				write(b, x)
-				if x%3 == 0 {
+				if x%3 == 0 && !dense {
 					time.Sleep(time.Duration(20+x%7*10) * time.Microsecond)
 				}
 			}
@@ -216,11 +222,24 @@ func LogbufMain(args []string) {
 			go func(k int) {
 				defer wg.Done()
 				rr := rand.New(rand.NewSource(seeds[k]))
-				for j := 0; j < 1+rr.Intn(3); j++ {
-					time.Sleep(time.Duration(rr.Intn(300)) * time.Microsecond)
+				cycles := 1 + rr.Intn(3)
+				if dense {
+					cycles = 25
+				}
+				for j := 0; j < cycles; j++ {
+					if !dense {
+						time.Sleep(time.Duration(rr.Intn(300)) * time.Microsecond)
+					}
 					o := &observer{id: fmt.Sprintf("o%d_%d", k, j), tail: []int{0, 1, 2, 3, size, 100000}[rr.Intn(6)], rec: rec}
+					if dense {
+						o.tail = rr.Intn(4)
+					}
 					b.GetLogsAndSubscribe(o)
-					time.Sleep(time.Duration(rr.Intn(400)) * time.Microsecond)
+					if dense {
+						time.Sleep(time.Duration(rr.Intn(60)) * time.Microsecond)
+					} else {
+						time.Sleep(time.Duration(rr.Intn(400)) * time.Microsecond)
+					}
 					if rr.Intn(4) != 0 {
 						rec.put(map[string]any{"op": "unsubbegin", "o": o.id})
 						b.UnSubscribe(o)
